@@ -72,6 +72,11 @@ def check_indices(mgr, where):
 
 def current_init(model):
     init = {E.loc_str(k): model.get(k) for k in W.NUM_LEAVES}
+    for k in W.FRESH_LEAVES:        # created by the history so far?
+        try:
+            init[E.loc_str(k)] = model.get(k)
+        except (KeyError, AttributeError):
+            pass
     init[E.loc_str(W.IDX_LEAF)] = model.get(W.IDX_LEAF)
     init[E.loc_str(W.KEY_LEAF)] = model.get(W.KEY_LEAF)
     return init
@@ -104,7 +109,7 @@ def fresh_from(model, order_seed=None):
 
 def queries(real):
     out = {}
-    for key in W.NUM_LEAVES + W.CONTAINERS + [W.IDX_LEAF, W.KEY_LEAF]:
+    for key in W.NUM_LEAVES + W.FRESH_LEAVES + W.CONTAINERS + [W.IDX_LEAF, W.KEY_LEAF]:
         r = real.ref(key)
         out[E.loc_str(key)] = (
             frozenset(str(x) for x in real.m.find_deps([r])),
@@ -301,7 +306,7 @@ WEIGHTS = {"sete": 34, "setv": 18, "inplace": 10, "unreg": 14, "setc": 4,
 
 def run(ctx):
     n = ctx.n(250, 2500)
-    opts = H.Opts(weights=WEIGHTS, max_ops=25)
+    opts = H.Opts(weights=WEIGHTS, max_ops=25, fresh=True)
 
     def body(case):
         return exec_case(ctx, case)
@@ -309,7 +314,7 @@ def run(ctx):
     # K1-class histories are not excluded here: the index clauses hold for them too
     opts2 = H.Opts(weights=WEIGHTS, max_ops=20, avoid_k1=False)
     drive(ctx, cases(opts2), body, max(30, n // 3), salt=2, label="C03 (K1 allowed)")
-    long = H.Opts(weights=WEIGHTS, min_ops=40, max_ops=ctx.n(60, 120))
+    long = H.Opts(weights=WEIGHTS, min_ops=40, max_ops=ctx.n(60, 120), fresh=True)
     drive(ctx, cases(long), body, ctx.n(10, 200), salt=3, label="C03 long histories")
 
 
